@@ -2,7 +2,9 @@
 (***************************************************************************)
 (* Gen use of Meter.tla: an initial reading with any admissible subset of *)
 (* start/end present (or none at all), then 10..MaxOps RecordReading /    *)
-(* Reset calls, the harness clock advancing by dt ticks before each.      *)
+(* Reset calls, the harness clock advancing by dt ticks before each; some *)
+(* RecordReading calls are overtaken by another client's call at the      *)
+(* instant they read the (stepped) clock.                                 *)
 (***************************************************************************)
 EXTENDS Meter, TLC, Json
 
@@ -13,7 +15,11 @@ R(S) == RandomElement(S)
 Flip(z, pct) == RandomElement(1..100) <= pct
 Pick(z, seq) == seq[RandomElement(1..Len(seq))]
 
-Op(z) == [op |-> Pick(z, <<"Record", "Record", "Record", "Record", "Reset">>), dt |-> Pick(z, <<0, 1, 1, 2, 5>>), v |-> R(0..50)]
+\* RecordDuring: the harness clock holds RecordReading right after it has taken its instant, another client's
+\* call (inner, dt2 >= 1 ticks later) runs in between, then the recorder goes on
+Op(z) == [op |-> Pick(z, <<"Record", "Record", "Record", "Record", "Reset", "RecordDuring", "RecordDuring">>),
+          dt |-> Pick(z, <<0, 1, 1, 2, 5>>), v |-> R(0..50),
+          inner |-> Pick(z, <<"Reset", "Reset", "Record", "None">>), v2 |-> R(0..50), dt2 |-> Pick(z, <<1, 1, 2>>)]
 
 \* the clock starts at tick 10; supplied times lie before it
 InitReading(z) ==
